@@ -128,6 +128,9 @@ class State:
             return None
         if v is None and a == ZERO:
             return 0  # 0 - b <= 0 : every term is unsigned
+        if v is None:
+            # a <= u and b >= 0  =>  a - b <= u
+            return self.dbm.get((a, ZERO))
         return v
 
     def add(self, a, b, c):
@@ -222,7 +225,14 @@ class State:
 
     # ---- linear-form queries
     def lin_le0(self, l):
-        """is linear form l <= 0 known?  only forms  a - b + k,  a + k,  -b + k,  k"""
+        """is linear form l <= 0 known?  only forms  a - b + k,  a + k,  -b + k,  k (also after
+        substituting definitions)"""
+        if self._lin_le0(l):
+            return True
+        e = self.expand(l)
+        return e.key() != l.key() and self._lin_le0(e)
+
+    def _lin_le0(self, l):
         co = l.co
         if not co:
             return l.k <= 0
@@ -349,12 +359,22 @@ def equal(a, b):
 class Contract:
     """per-function facts, written after reading the code (tables/contracts.py)"""
 
-    def __init__(self, buffers=None, requires=None, ensures=None, onepast=None, notes="", literals=None):
+    def __init__(self, buffers=None, requires=None, ensures=None, onepast=None, notes="", literals=None,
+                 foreign=None, invariants=None, axioms=None, ret=None, call_requires=None, objects=None):
         self.buffers = buffers or {}    # buffer term name -> bound expression (term name, '@entry' allowed)
         self.requires = requires or []  # [(a, b, c)] on parameter names: a - b <= c at entry
         self.ensures = ensures or {}    # by-ref param name -> list of ('inc',) | ('le', boundname)
         self.onepast = onepast or set() # buffers whose unit at index == bound is readable
         self.literals = literals or []  # expressions naming non-empty NUL-terminated literals (terminator readable)
+        self.foreign = foreign or {}    # buffer expression text -> reason it is out of this engine's scope
+        self.invariants = invariants or []  # [(a, b, c)] over field terms: assumed at entry, proven at every exit
+        self.axioms = axioms or []      # [(termA, termB, c, reason)] facts about pure getters, re-established after kills
+        self.ret = ret or []            # facts about the returned value: ('le', param) result <= param
+        self.call_requires = call_requires or {}  # callee simple name -> [(arg index, bound name)]: arg <= bound here
+        # local object -> method -> effect spec on its pure getters (each spec is justified by a rule on the class):
+        #   {"set": (getter, arg index)}                               getter() == argument afterwards
+        #   {"havoc": [getters], "inc": [getters], "le": [(getter, bound)], "implies": [(flag getter, getter, bound)]}
+        self.objects = objects or {}
         self.notes = notes
 
 
@@ -402,6 +422,12 @@ class Zone(dataflow.Client):
                         self.decl_names[d["d"]] = d["n"]
                         self.decl_tk[d["d"]] = d["tk"]
         self.fields_written_by = fields_written_by
+        n2t = self.name_terms()
+        self.buffer_terms = set()
+        for bname in self.contract.buffers:
+            bt = n2t(bname)
+            if bt:
+                self.buffer_terms.add(bt)
         # literal buffers: buffer term -> length term
         self.literal_bounds = {"x:" + x: "L:" + x for x in self.contract.literals}
 
@@ -420,6 +446,8 @@ class Zone(dataflow.Client):
             return None
         if k in ("MemberExpr", "CXXDependentScopeMemberExpr"):
             ch = n.get("ch", [])
+            if n.get("qual"):
+                return None   # Scope::constant, not a field of this
             if n["k"] == "MemberExpr" and n.get("dk") != "field":
                 return None
             if not ch or n.get("implicit"):
@@ -465,6 +493,10 @@ class Zone(dataflow.Client):
             return t[2:].split("#")[0] + "@entry"
         if t.startswith(("m:", "g:")):
             return t.split("|", 1)[1]
+        if t.startswith("o:"):
+            return "off(" + Zone.pretty_term(t[2:]) + ")"
+        if t.startswith("L:"):
+            return "len(" + t[2:] + ")"
         return t[2:]
 
     def is_unsigned_term(self, nid):
@@ -495,6 +527,12 @@ class Zone(dataflow.Client):
             return self.lin(st, sub, depth + 1)
         if k in ("InitListExpr", "CXXUnresolvedConstructExpr") and len(n.get("ch", [])) == 1 and n.get("tk") != "rec":
             return self.lin(st, n["ch"][0], depth + 1)
+        if k == "DependentScopeDeclRefExpr" or (k == "CXXDependentScopeMemberExpr" and n.get("qual")):
+            v = self.model.resolve_dep_const(n["text"] if k == "DependentScopeDeclRefExpr" else n["qual"] + n["n"])
+            return Lin({}, v) if isinstance(v, int) and v >= 0 else None
+        if k in ("DeclRefExpr", "MemberExpr") and n.get("static") and "cv" not in n:
+            v = self.model.const_of_var_id(n.get("d"))
+            return Lin({}, v) if isinstance(v, int) and v >= 0 else None
         if k == "DeclRefExpr" and "cv" in n and n.get("dk") in ("enumc", "nttp"):
             return Lin({}, n["cv"])
         if k == "DeclRefExpr" and "cv" in n and n.get("static"):
@@ -569,7 +607,49 @@ class Zone(dataflow.Client):
                         d = st.expand(pf[1]) - Lin({self.literal_bounds[pf[0]]: 1})
                         eq = (n["op"] == "==") == truth
                         return [d, Lin({}) - d] if eq else [("ne", d)]
+        if k == "BinaryOperator" and n["op"] in ("==", "!="):
+            # flagged integer term compared with a constant: nonzero-ness re-activates its implications
+            a, b = n["ch"]
+            extra = []
+            for x, y in ((a, b), (b, a)):
+                xs = fn.strip(x)
+                xn = fn.nodes[xs]
+                if xn["k"] == "BinaryOperator" and xn["op"] == "=":
+                    xs = fn.strip(xn["ch"][0])
+                tx = self.term_of(xs)
+                cy = fn.const_value(y)
+                if cy is None:
+                    ly = self.lin(st, y)
+                    cy = ly.k if ly is not None and ly.is_const() else None
+                if tx is not None and tx in st.flags and cy is not None:
+                    eq = (n["op"] == "==") == truth
+                    nonzero = (eq and cy != 0) or ((not eq) and cy == 0)
+                    zero = eq and cy == 0
+                    ct, cf, _ = st.flags[tx]
+                    cons = ct if nonzero else (cf if zero else ())
+                    extra = [Lin({p: 1, q: -1} if p != ZERO and q != ZERO else ({p: 1} if q == ZERO else {q: -1}), -c)
+                             for (p, q, c) in cons]
+            if extra:
+                base = self._cmp_cons(st, n, truth)
+                return (base or []) + extra
         if k == "BinaryOperator" and n["op"] in ("<", "<=", ">", ">=", "==", "!="):
+            return self._cmp_cons(st, n, truth)
+        if k == "DeclRefExpr" or k == "MemberExpr":
+            t = self.term_of(nid)
+            if t in st.flags:
+                ct, cf, _ = st.flags[t]
+                return [Lin({a: 1, b: -1} if a != ZERO and b != ZERO else ({a: 1} if b == ZERO else {b: -1}), -c)
+                        for (a, b, c) in (ct if truth else cf)]
+            if t is not None and n.get("tk") in ("uint", "bool"):
+                # if (x) : x != 0
+                if truth:
+                    return [Lin({t: -1}, 1)]
+                return [Lin({t: 1}, 0)]
+        return None
+
+    def _cmp_cons(self, st, n, truth):
+        fn = self.fn
+        if True:
             op = n["op"]
             a, b = n["ch"]
             if not (self.is_unsigned_term(a) and self.is_unsigned_term(b)):
@@ -581,7 +661,6 @@ class Zone(dataflow.Client):
             la, lb = self.lin(st, a), self.lin(st, b)
             if la is None or lb is None:
                 return None
-            la, lb = st.expand(la), st.expand(lb)
             if not truth:
                 op = {"<": ">=", "<=": ">", ">": "<=", ">=": "<", "==": "!=", "!=": "=="}[op]
             d = la - lb
@@ -597,17 +676,6 @@ class Zone(dataflow.Client):
                 return [d, lb - la]
             if op == "!=":
                 return [("ne", d)]
-        if k == "DeclRefExpr" or k == "MemberExpr":
-            t = self.term_of(nid)
-            if t in st.flags:
-                ct, cf, _ = st.flags[t]
-                return [Lin({a: 1, b: -1} if a != ZERO and b != ZERO else ({a: 1} if b == ZERO else {b: -1}), -c)
-                        for (a, b, c) in (ct if truth else cf)]
-            if t is not None and n.get("tk") in ("uint", "bool"):
-                # if (x) : x != 0
-                if truth:
-                    return [Lin({t: -1}, 1)]
-                return [Lin({t: 1}, 0)]
         return None
 
     def apply_cons(self, st, cons):
@@ -615,14 +683,17 @@ class Zone(dataflow.Client):
             return
         for c in cons:
             if isinstance(c, tuple) and c[0] == "ne":
-                d = c[1]
-                # a != b with a <= b known  =>  a < b
-                if st.lin_le0(d):
-                    st.add_lin_le0(d.shift(1))
-                elif st.lin_le0(Lin({}, 0) - d):
-                    st.add_lin_le0((Lin({}, 0) - d).shift(1))
+                for d in (c[1], st.expand(c[1])):
+                    # a != b with a <= b known  =>  a < b
+                    if st.lin_le0(d):
+                        st.add_lin_le0(d.shift(1))
+                    elif st.lin_le0(Lin({}, 0) - d):
+                        st.add_lin_le0((Lin({}, 0) - d).shift(1))
                 continue
             st.add_lin_le0(c)
+            e = st.expand(c)
+            if e.key() != c.key():
+                st.add_lin_le0(e)
 
     # ---------------------------------------------------------------- client interface
     def initial(self, fn):
@@ -636,11 +707,22 @@ class Zone(dataflow.Client):
         for L in self.literal_bounds.values():
             st.add(ZERO, L, -1)   # the literal is not empty (checked by the table rules)
         name2term = self.name_terms()
-        for (a, b, c) in list(self.contract.requires) + list(self.assume_entry):
+        for (a, b, c) in list(self.contract.requires) + list(self.assume_entry) + list(self.contract.invariants):
             ta, tb = name2term(a), name2term(b)
             if ta and tb:
                 st.add(ta, tb, c)
+        self.apply_axioms(st)
         return st
+
+    def apply_axioms(self, st):
+        if not self.contract.axioms:
+            return
+        name2term = self.name_terms()
+        for ax in self.contract.axioms:
+            a, b, c = ax[0], ax[1], ax[2]
+            ta, tb = name2term(a), name2term(b)
+            if ta and tb and not st.le(ta, tb, c):
+                st.add(ta, tb, c)
 
     def name_terms(self):
         fn = self.fn
@@ -655,8 +737,14 @@ class Zone(dataflow.Client):
             if name in self.pinfo:
                 p = self.pinfo[name]
                 return ("e:%s#%d" if entry else "v:%s#%d") % (p["n"], p["d"])
-            if name.startswith(("f:", "g:", "m:")):
+            if name.startswith(("f:", "g:", "m:", "L:", "x:")):
                 return name
+            if "." in name and name.endswith("()"):
+                base = name.split(".")[0]
+                bt = f(base)
+                if bt:
+                    return "g:%s|%s" % (bt, name)
+                return None
             for d, nm in self.decl_names.items():
                 if nm == name:
                     return "v:%s#%d" % (nm, d)
@@ -686,7 +774,7 @@ class Zone(dataflow.Client):
         return not st.bottom
 
     # ---- effects
-    def havoc(self, st, t, keep_lower=False, keep_le=None):
+    def havoc(self, st, t, keep_lower=False, keep_le=None, keep_upper=False):
         """t takes an unknown value; keep_lower: the new value is >= the old one;
         keep_le: bound terms B for which (old <= B) implies (new <= B)"""
         lowers = []
@@ -698,7 +786,12 @@ class Zone(dataflow.Client):
         for B in (keep_le or []):
             if st.le(t, B, 0):
                 uppers.append(B)
+        ups = []
+        if keep_upper:
+            ups = [(b, c) for (a, b), c in st.dbm.items() if a == t and b != t]
         st.kill(t)
+        for b, c in ups:
+            st.add(t, b, c)
         for a, c in lowers:
             st.add(a, t, c)
         for B in uppers:
@@ -707,6 +800,10 @@ class Zone(dataflow.Client):
     def assign(self, st, t, rhs_nid, tk=None):
         fn = self.fn
         if tk == "ptr" or (rhs_nid is not None and rhs_nid >= 0 and fn.nodes[fn.strip(rhs_nid)].get("tk") == "ptr"):
+            if t in self.buffer_terms:
+                # a local pointer the contract declares as a buffer of its own: keep it a root
+                st.kill(t)
+                return
             pd = self.ptr_form(st, rhs_nid) if rhs_nid is not None and rhs_nid >= 0 else None
             ot = "o:" + t
             if pd is not None and pd[0] != t and ot in pd[1].co:
@@ -757,7 +854,34 @@ class Zone(dataflow.Client):
             return
         l = None
         if rhs_nid is not None and rhs_nid >= 0:
+            src = self.term_of(rhs_nid)
+            if src is not None and src in st.flags and src != t:
+                fl = st.flags[src]
+                self._assign_plain(st, t, rhs_nid)
+                if t not in fl[2]:
+                    st.flags[t] = fl
+                return
             rn = fn.nodes[fn.strip(rhs_nid)]
+            if rn["k"] in ("CallExpr", "CXXMemberCallExpr"):
+                nm, _ = fn.callee_name(fn.strip(rhs_nid))
+                args = fn.call_args(fn.strip(rhs_nid))
+                cc = self.contracts.get(nm, len(args)) if nm else None
+                if cc is None and nm and "fq" not in rn:
+                    cc = self.contracts.by_simple(nm.split("::")[-1], len(args))
+                if cc is not None and cc.ret:
+                    params = self.lookup_callee_params(fn.strip(rhs_nid))
+                    pn = [p_.get("n") for p_ in params] if params else []
+                    facts = []
+                    for r in cc.ret:
+                        if r[0] == "le" and r[1] in pn and pn.index(r[1]) < len(args):
+                            la = self.lin(st, args[pn.index(r[1])])
+                            if la is not None:
+                                facts.append(st.expand(la))
+                    st.kill(t)
+                    for la in facts:
+                        if t not in la.co:
+                            st.add_lin_le0(Lin({t: 1}) - la)
+                    return
             if rn["k"] == "ConditionalOperator":
                 c, a, b = rn["ch"]
                 s1, s2 = st.copy(), st.copy()
@@ -794,6 +918,18 @@ class Zone(dataflow.Client):
             ok2 = st.add_lin_le0(Lin({}) - d2)
             if not (ok1 and ok2):
                 st.defs[t] = le
+                # t == x + y + k with unsigned terms: t >= each term + k
+                if all(cf == 1 for cf in le.co.values()) and le.k >= 0:
+                    for x in le.co:
+                        st.add(x, t, -le.k)
+
+    def _assign_plain(self, st, t, rhs_nid):
+        l = self.lin(st, rhs_nid)
+        st.kill(t)
+        if l is not None and t not in l.co:
+            d = Lin({t: 1}) - l
+            st.add_lin_le0(d)
+            st.add_lin_le0(Lin({}) - d)
 
     def ptr_form(self, st, nid, depth=0):
         """(buffer term, Lin offset) if expression is buffer + linear"""
@@ -828,7 +964,8 @@ class Zone(dataflow.Client):
         if t is None:
             if n["k"] in ("CallExpr", "CXXMemberCallExpr") and not fn.call_args(nid):
                 return ("x:" + fn.text(nid), Lin())
-            if n["k"] == "DependentScopeDeclRefExpr" or (n["k"] in ("DeclRefExpr", "MemberExpr") and n.get("static")):
+            if n["k"] == "DependentScopeDeclRefExpr" or (n["k"] in ("DeclRefExpr", "MemberExpr") and n.get("static")) or \
+                    (n["k"] == "CXXDependentScopeMemberExpr" and n.get("qual")):
                 return ("x:" + fn.text(nid), Lin())
             return None
         if t in st.ptrs:
@@ -963,7 +1100,39 @@ class Zone(dataflow.Client):
         if k in ("CallExpr", "CXXMemberCallExpr", "CXXOperatorCallExpr", "CXXConstructExpr",
                  "CXXTemporaryObjectExpr", "CXXUnresolvedConstructExpr"):
             self.call_effects(st, nid)
+            self.apply_axioms(st)
             return
+
+    def object_effect(self, st, rn, method, args):
+        spec = self.contract.objects[rn["n"]][method]
+        base = "v:%s#%d" % (rn["n"], rn["d"])
+        name2term = self.name_terms()
+
+        def g(getter):
+            return "g:%s|%s.%s" % (base, rn["n"], getter)
+        if "set" in spec:
+            getter, ai = spec["set"]
+            la = self.lin(st, args[ai]) if ai < len(args) else None
+            st.kill(g(getter))
+            if la is not None and g(getter) not in la.co:
+                d = Lin({g(getter): 1}) - la
+                st.add_lin_le0(d)
+                st.add_lin_le0(Lin({}) - d)
+            return
+        les = []
+        for (getter, bound) in spec.get("le", []):
+            bt = name2term(bound)
+            if bt and st.le(g(getter), bt, 0):
+                les.append((g(getter), bt))
+        for getter in spec.get("havoc", []):
+            t = g(getter)
+            self.havoc(st, t, keep_lower=getter in spec.get("inc", []))
+        for (t, bt) in les:
+            st.add(t, bt, 0)
+        for (fg, getter, bound) in spec.get("implies", []):
+            bt = name2term(bound)
+            if bt:
+                st.flags[g(fg)] = (((g(getter), bt, 0),), (), frozenset([g(getter), bt]))
 
     def call_effects(self, st, nid):
         fn = self.fn
@@ -1005,6 +1174,7 @@ class Zone(dataflow.Client):
                 ens = contract.ensures.get(pnames[i])
             if ens:
                 keep_lower = any(x[0] == "inc" for x in ens)
+                keep_upper = any(x[0] == "dec" for x in ens)
                 bounds = []
                 for x in ens:
                     if x[0] == "le":
@@ -1017,7 +1187,7 @@ class Zone(dataflow.Client):
                                     s = st.expand(lb).single()
                                     if s is not None and s[1] == 0:
                                         bounds.append(s[0])
-                self.havoc(st, t, keep_lower=keep_lower, keep_le=bounds)
+                self.havoc(st, t, keep_lower=keep_lower, keep_le=bounds, keep_upper=keep_upper)
             else:
                 st.kill(t)
         # receiver effects
@@ -1029,7 +1199,8 @@ class Zone(dataflow.Client):
             if r is None:
                 ch = n.get("ch", [])
                 c0 = fn.nodes[fn.strip(ch[0])] if ch else None
-                implicit_this = c0 is not None and c0["k"] in ("MemberExpr", "CXXDependentScopeMemberExpr", "UnresolvedMemberExpr")
+                implicit_this = c0 is not None and c0["k"] in ("MemberExpr", "CXXDependentScopeMemberExpr", "UnresolvedMemberExpr") \
+                    and not c0.get("qual")
                 if implicit_this and not is_const:
                     if simple in PURE_GETTERS:
                         return
@@ -1043,6 +1214,10 @@ class Zone(dataflow.Client):
                 return
             rs = fn.strip(r)
             rn = fn.nodes[rs]
+            if rn["k"] == "DeclRefExpr" and rn["n"] in self.contract.objects and \
+                    simple in self.contract.objects[rn["n"]]:
+                self.object_effect(st, rn, simple, args)
+                return
             if is_const or simple in PURE_GETTERS or simple in ("IsEmpty", "IsNotEmpty", "First", "Storage", "Last", "End"):
                 return
             if rn["k"] == "CXXThisExpr":
